@@ -9,12 +9,16 @@ from pyvc.check import UnitResult
 def run_contract(prop, target, contract, setups, name=None, to_case=None, post_run=None, replay_module=None, fname=None):
     """symbolically execute `target` once per setup (a setup is a callable (ex, st) building the
     entry state; several setups = case split over configurations) and collect the obligations"""
-    u = UnitResult(name or target[1])
-    try:
-        fx = extract.get_function(*target)
-    except KeyError as e:
-        u.outside.append((":".join(target), f"function not found: {e}"))
-        return u
+    if isinstance(target, extract.Extracted):  # an already extracted function or statement slice
+        u = UnitResult(name or target.qualname)
+        fx = target
+    else:
+        u = UnitResult(name or target[1])
+        try:
+            fx = extract.get_function(*target)
+        except KeyError as e:
+            u.outside.append((":".join(target), f"function not found: {e}"))
+            return u
     u.functions.append(fx.describe())
     u.to_case = to_case
     u.replay_module = replay_module
@@ -323,7 +327,7 @@ def unit_si_frame(prop, which):
 
 
 UNITS = {
-    "C03": [unit_si("C03", w) for w in ("chunk", "handle_skip", "preamble", "finalize", "full")] + [unit_si_frame("C03", w) for w in ("fill", "frame", "dft", "idft")],
+    "C03": [unit_si("C03", w) for w in ("chunk", "handle_skip", "preamble", "finalize", "full", "geometry")] + [unit_si_frame("C03", w) for w in ("fill", "frame", "dft", "idft")],
     "C13": [_lazy("contracts.shorten", "unit_bit_reader", "C13")],
     "C11": [unit_read_signal("C11", "dispatch"), unit_read_signal("C11", "wds"), unit_read_signal("C11", "infer")],
     "C16": [unit_std("C16", "accumulate_vector"), unit_std("C16", "apply_vector"), unit_std("C16", "have_stats")],
